@@ -93,6 +93,9 @@ func c04CheckAddr(m *mapper, dir string, a uint32) (out []mapFinding) {
 		if err2 != nil {
 			return []mapFinding{{"unexplained:inverse-rejects:" + m.Name, fmt.Sprintf("%s: bus $%06x -> pak $%06x, but PakAddressToBus($%06x) fails: %v", m.Name, a, p, p, err2)}}
 		}
+		if b2 >= 1<<24 {
+			return []mapFinding{{"unexplained:not-a-bus-address:" + m.Name, fmt.Sprintf("%s: bus $%06x -> pak $%06x -> $%x, which is not a 24-bit bus address", m.Name, a, p, b2)}}
+		}
 		p2, err3 := m.BusToPak(b2)
 		if err3 != nil || p2 != p {
 			sig := "unexplained:not-right-inverse:" + m.Name
@@ -107,6 +110,9 @@ func c04CheckAddr(m *mapper, dir string, a uint32) (out []mapFinding) {
 	b, err := m.PakToBus(a)
 	if err != nil {
 		return nil
+	}
+	if b >= 1<<24 {
+		return []mapFinding{{"unexplained:not-a-bus-address:" + m.Name, fmt.Sprintf("%s: pak $%06x -> $%x, which is not a 24-bit bus address", m.Name, a, b)}}
 	}
 	p2, err2 := m.BusToPak(b)
 	if err2 != nil {
